@@ -158,13 +158,22 @@ func runC11(c *Ctx) {
 		}
 		// R3: after a victim is chosen, no disposition before the unloadedCh receive
 		nV := 0
+		// the victim variable: the runner this function itself posts on expiredCh
+		var victimObj types.Object
+		for _, op := range m.opsOn(m.fExpired, true) {
+			if op.Fn.Key() == f.Key() && op.Fn.Lit == nil {
+				if id, isID := ast.Unparen(op.Node.(*ast.SendStmt).Value).(*ast.Ident); isID {
+					victimObj = info.Uses[id]
+				}
+			}
+		}
 		for _, h := range g.Find(func(n ast.Node) bool {
 			as, ok := n.(*ast.AssignStmt)
 			if !ok || len(as.Lhs) != 1 || len(as.Rhs) != 1 {
 				return false
 			}
 			id, isID := as.Lhs[0].(*ast.Ident)
-			if !isID || id.Name != "runnerToExpire" {
+			if !isID || victimObj == nil || info.ObjectOf(id) != victimObj {
 				return false
 			}
 			if rid, isR := ast.Unparen(as.Rhs[0]).(*ast.Ident); isR {
@@ -200,7 +209,7 @@ func runC11(c *Ctx) {
 					nilVictim := false
 					for _, a := range g.AtomsAt(l) {
 						if x, eq, isNil := core.IsNilCheck(info, a.Expr); isNil && eq == a.Val {
-							if id, ok := ast.Unparen(x).(*ast.Ident); ok && id.Name == "runnerToExpire" {
+							if id, ok := ast.Unparen(x).(*ast.Ident); ok && info.Uses[id] == victimObj {
 								nilVictim = true
 							}
 						}
